@@ -57,6 +57,15 @@ CLAIMS = {
  "C20": mc("bounded symbolic execution of whole runs (z3 LRA) with the callback stopping at every possible call (both continuations explored)",
    "On every path with a callback (positional and keyword forms): exactly one call per evaluation, argument in user variables inside the bounds, fun passed is the objective value of that point; on the path where the callback raises at call k, minimize returns exactly that point (and fun) with nfev = k and status 3 - since both continuations of every call are explored, the argument is literally 'the point minimize would return if it stopped now'. " + CTL,
    CTLNOTE + "With inconsistent bounds / all variables fixed the status stays -1 / 2. Callable objects/partials and callbacks overwriting the array are in the thorough tier.", "5/C20"),
+ "C12": mc("symbolic execution of the real Models/Quadratic code (real eigh on concrete geometry) with every recorded function value symbolic; z3 LRA decides |model(x_k) - value_k| <= tol for all values",
+   "For seeded histories (quick: 10 shapes n<=2, npt n+1..(n+1)(n+2)/2, 6 operations; thorough: n<=3, 14 operations, 6 seeds) of replacements (including replacement by a very close point), base shifts and resets that keep the set well conditioned, with 0-2 constraint models, z3 proves for EVERY recorded value in [-1,1] at every step that each model reproduces the value recorded at each interpolation point (tol 1e-7). The 'recorded value belongs to the evaluated point' half is monitored in the control-flow harness.",
+   TRUSTED + "Geometry concrete because LAPACK must run (stated bound); steps flagged ill_conditioned (set singular to machine precision) are outside the property's 'keeps the set poised' quantifier.", "5/C12, 4/H-MOD"),
+ "C13": mc("symbolic execution of the real Models/Quadratic code vs an exact-rational (fractions.Fraction) implementation of the least-Frobenius-norm / symmetric-Broyden recursion carrying the same symbolic values; z3 LRA",
+   "Same histories as C12: after every operation the code's model value, gradient (at (n+1)(n+2)/2+1 probe points) and Hessian equal, for EVERY value vector, the exact rational reference (tol 1e-7), and the views agree: m(x) = m(0)+g.x+x'Hx/2, hess_prod(v) = hess() v, curv(v) = v'hess() v; base shifts leave the function unchanged.",
+   TRUSTED + "The rational reference (harness/mod.py: kkt, fr_solve, RefQuad) is the trusted oracle; probe points concrete.", "5/C13, 4/H-MOD"),
+ "C14": mc("symbolic execution of the real Models.determinants with a symbolic candidate point; z3 nlsat decides the degree-4 polynomial identity against the exact cofactor expansion of det W'/det W",
+   "For poised sets reached by seeded histories (n<=2, npt<=5 quick; n<=3 thorough) and EVERY candidate point within 2 radii, sigma from determinants(x) and determinants(x,k) equals, for every index k, the ratio of the two determinants expanded exactly (Fraction minors) along the replaced row and column (relative tol 1e-6).",
+   TRUSTED + "nlsat time-outs are reported as inconclusive.", "5/C14, 4/H-MOD"),
  "C11": mc("bounded symbolic execution of whole runs (z3 LRA); deep copies of the arguments before/after",
    "PARTIAL: on every control-flow path x0 and the options dict are unchanged after the call. Determinism of repeated calls, nesting and thread schedules are not covered by this check (thread interleavings cannot be ranged over by a solver encoding of this code).",
    CTLNOTE, "5/C11, 6"),
